@@ -101,6 +101,16 @@ class IpAddr(Stream):
         for i in range(600 if tier == "quick" else 30000):
             k = rng.below(3)
             cs.append({"v4": rng.bytes(4).hex() if k != 1 else "", "v6": rng.bytes(16).hex() if k != 0 else ""})
+        # the same IPv6 address in other legal text forms (RFC 4291 2.2): embedded dotted quad (NAT64 64:ff9b::a.b.c.d), upper
+        # case, all eight groups written out
+        import ipaddress
+        for i in range(12 if tier == "quick" else 200):
+            b = bytes.fromhex(["0064ff9b" + "00" * 8, "20010db8" + "00" * 8, "00" * 12][i % 3]) + rng.bytes(4) if i % 4 != 3 else rng.bytes(16)
+            a = ipaddress.IPv6Address(b)
+            quad = ".".join(str(x) for x in b[12:])
+            head = a.exploded.rsplit(":", 2)[0]
+            text = [head + ":" + quad, a.exploded.upper(), a.exploded, a.compressed.upper()][i % 4]
+            cs.append({"v4": rng.bytes(4).hex() if i % 5 == 4 else "", "v6": b.hex(), "v6text": text})
         return cs
 
     def coq_case(self, c, o):
@@ -226,11 +236,37 @@ class Dnn(Stream):
         return "(%s, %s, %s)" % (C.cN(bytes.fromhex(c["dnn"])), C.cN(bytes.fromhex(o["bytes"])), C.cN(bytes.fromhex(o["back"])))
 
 
+class Concurrent(Stream):
+    """8 parties convert their own AMF ids, PLMNs, S-NSSAIs and addresses at once: each gets what it gets alone"""
+    name = "concurrent"
+    sub = "conc"
+    model_check = None
+    spec_check = None
+    requires = []
+
+    def generate(self, rng, tier):
+        return [{"family": "convert", "goroutines": 8, "iters": 3000 if tier == "quick" else 100000}]
+
+    def classify(self, c, o):
+        return "same" if o.get("different") == 0 else "different"
+
+    def key(self, c, o):
+        return "convert-conc"
+
+    def coq_case(self, c, o):
+        return ""
+
+    def direct_check(self, c, o):
+        if o.get("different", 1) != 0 or "harness_error" in o or "panic" in o:
+            return "converting concurrently for different parties changes the results: %s" % (o.get("first") or o)
+        return None
+
+
 class C17(Check):
     pid = "C17"
     prop_files = ["Properties/C17.v"]
     extra_targets = ["Model/C11Check.vo"]
-    streams = [PlmnNas(), Snssai(), AmfId(), IpAddr(), IpStr(), Pco(), PcoDec(), Dnn()]
+    streams = [PlmnNas(), Snssai(), AmfId(), IpAddr(), IpStr(), Pco(), PcoDec(), Dnn(), Concurrent()]
     trusted = ["Coq 8.16.1 kernel incl. vm_compute (no native_compute)", "no axioms (Print Assumptions: closed under the global context)",
                "hand-written models Model/Convert.v, Model/SuciEnc.v (plmn_id_to_nas), Lib/Hex.v (encoding/hex) tied by the correspondence streams",
                "Spec/Convert3gpp.v, Spec/Suci.v: decoders transcribed from memory of TS 24.501 9.11.2.8, TS 23.003 2.10.1, TS 38.414, TS 24.008 10.5.6.3",
